@@ -26,7 +26,7 @@ def run(tier, seed, replay=None):
     import splipy.surface_factory as sf
     import splipy.volume_factory as vf
     rng = random.Random(seed)
-    reps = 40 if tier == 'quick' else 600
+    reps = 80 if tier == 'quick' else 600
     evals = 0
     nontriv = set()
     dist = {'factory': {}}
